@@ -97,8 +97,8 @@ Definition table_joined (table : list event) (a b : nat) (x : row) : list event 
 (* ------------------------------------------------------------------------------------------------ *)
 (* Distinct: zyedidia hashmap keyed by record.Values (hash = HashManyValues, equality = pairwise Compare = 0
    on range a) holding *distinctItem.  An association list searched by hash-and-equality. *)
-Definition dkey_eq (a b : row) : bool := (vhash_many a =? vhash_many b) && slices_eq a b.
-Definition dstate : Type := list (row * Z).
+Definition dkey_eq (x k : row) : bool := (vhash_many k =? vhash_many x) && slices_eq k x.   (* equals(stored, key) *)
+Definition dstate : Type := list (row * Z)%type.
 Fixpoint dget (st : dstate) (x : row) : option Z :=
   match st with
   | [] => None
@@ -167,7 +167,7 @@ Definition dcmp (a b : dval) : Z :=
   | Desc _, Asc _ => 1
   end.
 (* ORDER BY keys: (descending?, key expression) *)
-Definition okeys : Type := list (bool * (row -> value)).
+Definition okeys : Type := list (bool * (row -> value))%type.
 Definition okey (ks : okeys) (x : row) : list dval :=
   map (fun k => if fst k then Desc (snd k x) else Asc (snd k x)) ks.
 Definition skey (ks : okeys) (x : row) : list dval := okey ks x ++ map Asc x.
@@ -176,7 +176,7 @@ Definition item_less (ks : okeys) (a b : row) : bool := item_cmp ks a b =? -1.
 Definition item_eqv (ks : okeys) (a b : row) : bool := negb (item_less ks a b) && negb (item_less ks b a).
 
 (* the tree: items in ascending order *)
-Definition tree : Type := list (row * Z).
+Definition tree : Type := list (row * Z)%type.
 Fixpoint tget (ks : okeys) (t : tree) (x : row) : option Z :=
   match t with
   | [] => None
